@@ -409,6 +409,7 @@ def file_loop_rule(ck, prog, cfg, rid):
             continue
         h = min(mine, key=lambda h: len(rec.reach([heads[h][1]], avoid=[h])))
         none_t, some_t, nb = heads[h]
+        lib2.whole_batch(ck, rec, h, rid, "recover_all_entries:all-files" + _tag(cfg), "the sorted list of WAL files")
         body = {some_t} | rec.reach([some_t], avoid=[h])
         after = {none_t} | rec.reach([none_t], avoid=[h])
         # an edge from the body to the code after the loop that does not go through the loop head = break / early return
